@@ -83,6 +83,7 @@ type ghFact struct {
 	comp string
 	fact string
 	key  string // the heap version the fact is about: the fact is emitted iff the obligation mentions it
+	chain bool  // allocation-monotonicity link: emitted when any version of the component is mentioned
 }
 
 func (fx *FuncExec) fresh(hint, sort string) string {
@@ -164,23 +165,23 @@ func (fx *FuncExec) recordGoodHeap(st *State, comps []string) {
 		switch {
 		case strings.HasPrefix(c, "MD_"):
 			mi := r.maps[strings.TrimPrefix(c, "MD_")]
-			fx.ghFacts = append(fx.ghFacts, ghFact{c, eq(sel(cur, "null_"+mi.Sort), "((as const (Array "+mi.K+" Bool)) false)"), cur})
+			fx.ghFacts = append(fx.ghFacts, ghFact{c, eq(sel(cur, "null_"+mi.Sort), "((as const (Array "+mi.K+" Bool)) false)"), cur, false})
 		case strings.HasPrefix(c, "MV_"):
 			mi := r.maps[strings.TrimPrefix(c, "MV_")]
 			if al, ok := r.allocOf[mi.V]; ok && mi.V != "SRef" {
 				fx.ghFacts = append(fx.ghFacts, ghFact{c, fmt.Sprintf("(forall ((m %s) (k %s)) (! (or (= (select (select %s m) k) null_%s) (select %s (select (select %s m) k))) :pattern ((select (select %s m) k))))",
-					mi.Sort, mi.K, cur, mi.V, st.vars[al], cur, cur), cur})
+					mi.Sort, mi.K, cur, mi.V, st.vars[al], cur, cur), cur, false})
 			}
 		case strings.HasPrefix(c, "F_") || strings.HasPrefix(c, "PV_"):
 			cs := r.compSort[c]
 			ks, vs := arraySorts(cs)
 			if al, ok := r.allocOf[vs]; ok && vs != "SRef" {
 				fx.ghFacts = append(fx.ghFacts, ghFact{c, fmt.Sprintf("(forall ((r %s)) (! (or (= (select %s r) null_%s) (select %s (select %s r))) :pattern ((select %s r))))",
-					ks, cur, vs, st.vars[al], cur, cur), cur})
+					ks, cur, vs, st.vars[al], cur, cur), cur, false})
 			}
 			if vs == "Slice" {
 				fx.ghFacts = append(fx.ghFacts, ghFact{c, fmt.Sprintf("(forall ((r %s)) (! (and (>= (slen (select %s r)) 0) (>= (soff (select %s r)) 0) (or (= (sref (select %s r)) null_SRef) (select %s (sref (select %s r))))) :pattern ((select %s r))))",
-					ks, cur, cur, cur, st.vars["AL_SRef"], cur, cur), cur})
+					ks, cur, cur, cur, st.vars["AL_SRef"], cur, cur), cur, false})
 			}
 		case strings.HasPrefix(c, "SE_"):
 			cs := r.compSort[c]
@@ -188,11 +189,11 @@ func (fx *FuncExec) recordGoodHeap(st *State, comps []string) {
 			_, vs := arraySorts(inner)
 			if al, ok := r.allocOf[vs]; ok && vs != "SRef" {
 				fx.ghFacts = append(fx.ghFacts, ghFact{c, fmt.Sprintf("(forall ((r SRef) (i Int)) (! (or (= (select (select %s r) i) null_%s) (select %s (select (select %s r) i))) :pattern ((select (select %s r) i))))",
-					cur, vs, st.vars[al], cur, cur), cur})
+					cur, vs, st.vars[al], cur, cur), cur, false})
 			}
 		case strings.HasPrefix(c, "AL_"):
 			srt := strings.TrimPrefix(c, "AL_")
-			fx.ghFacts = append(fx.ghFacts, ghFact{c, not(sel(cur, "null_"+srt)), cur})
+			fx.ghFacts = append(fx.ghFacts, ghFact{c, not(sel(cur, "null_"+srt)), cur, false})
 		}
 	}
 }
@@ -458,8 +459,21 @@ func (o *Obligation) Render(_ string) string {
 	symbolsOf(body.String(), syms)
 	// good-heap facts: only for heap versions the obligation itself mentions
 	var gh strings.Builder
+	compMentioned := map[string]bool{}
+	for sy := range syms {
+		if strings.HasPrefix(sy, "H0_AL_") {
+			compMentioned[strings.TrimPrefix(sy, "H0_")] = true
+		} else if strings.HasPrefix(sy, "AL_") {
+			if i := strings.Index(sy, "!"); i > 0 {
+				compMentioned[sy[:i]] = true
+			}
+		}
+	}
 	for _, g := range fx.ghFacts {
-		if seen[g.fact] || !syms[g.key] {
+		if seen[g.fact] {
+			continue
+		}
+		if !(syms[g.key] || (g.chain && compMentioned[g.comp])) {
 			continue
 		}
 		seen[g.fact] = true
